@@ -15,6 +15,7 @@ import pandas as pd
 import scipy.sparse as sp
 from numbers import Real
 from collections.abc import Sized, Iterable
+from copy import copy
 
 
 class Model:
@@ -685,6 +686,23 @@ class Model:
         return ro_constr
 
     def dro_to_roc(self, constr):
+
+        if not isinstance(constr, ExpPWConstr) and np.any(constr.sense):
+            # an equality of expectations holds for every distribution:
+            # E(.) <= c and E(.) >= c
+            upper = copy(constr)
+            lower = copy(constr)
+            upper.sense = 0 * np.asarray(constr.sense)
+            if isinstance(constr, DecLinConstr):
+                rows = np.where(np.asarray(constr.sense).flatten())[0]
+                lower.linear = - constr.linear[rows]
+                lower.const = - np.asarray(constr.const).flatten()[rows]
+                lower.sense = np.zeros(len(rows))
+            else:
+                lower.raffine = - constr.raffine
+                lower.affine = - constr.affine
+                lower.sense = 0
+            return self.dro_to_roc(upper) + self.dro_to_roc(lower)
 
         drule_list = self.rule_var()
         num_var = self.vt_model.vars[-1].last
